@@ -81,7 +81,21 @@ def mixed_history(rep, results, seed, limit):
     nat = driver.Native()
     try:
         nat.eval_one("1", release=True)
-        orders = [("dev", pool), ("release", list(reversed(pool[len(pool) // 2:])) + pool[:len(pool) // 2])]
+        def norm(j):
+            o = driver.native_outcome(j)
+            return (o[0], o[1] if o[0] in ("ok", "err") else None, j.get("output", ""))
+
+        # three orders: fully shuffled; clustered by skeleton family (programs about the same feature - e.g. indexing ASCII and
+        # non-ASCII text - become neighbours, shuffled inside the family); and the two halves swapped and reversed, release build
+        fam = {}
+        for item in pool:
+            fam.setdefault(":".join(item[0].split(":")[:2]), []).append(item)
+        clustered = []
+        for key in sorted(fam):
+            grp = list(fam[key])
+            rng.shuffle(grp)
+            clustered += grp
+        orders = [("dev", pool), ("dev", clustered), ("release", list(reversed(pool[len(pool) // 2:])) + pool[:len(pool) // 2])]
         for prof, order in orders:
             for k in range(0, len(order), 400):
                 chunk = order[k:k + 400]
@@ -90,17 +104,17 @@ def mixed_history(rep, results, seed, limit):
                 except Exception:
                     continue  # a crashing program is attributed by the per-skeleton validation, not here
                 for idx, ((name, src, rec), j) in enumerate(zip(chunk, outs)):
-                    if j.get("result") == rec["result"] and j.get("output", "") == rec["output"]:
+                    if norm(j) == norm(rec):
                         continue
                     res["differences"] += 1
                     alone = nat.eval_one(src, release=(prof == "release"))
-                    if alone.get("result") != rec["result"] or alone.get("output", "") != rec["output"]:
+                    if norm(alone) != norm(rec):
                         continue  # not a matter of history (profile difference or nondeterminism is reported by the per-path comparison)
                     try:
                         again = nat._batch(nat.bin if prof == "dev" else nat.bin_release, "eval", [c[1] for c in chunk[:idx + 1]], timeout=120)[-1]
                     except Exception:
                         continue
-                    if again.get("result") == j.get("result") and again.get("output", "") == j.get("output", ""):
+                    if norm(again) == norm(j):
                         res["confirmed"] += 1
                         body = "# evaluations in ONE process, in this order (%s build); the LAST one differs from its evaluation in a fresh process\n" % prof
                         body += "### HISTORY\n" + "\n\x01\n".join(c[1] for c in chunk[:idx + 1]) + "\n### ALONE\n%r\n### AFTER THE HISTORY\n%r\n" % (rec, {"result": j.get("result"), "output": j.get("output", "")})
@@ -263,7 +277,8 @@ def run_C15(tier, seed):
     # values whose content changed after they were created (text modified in place), compared through whole programs:
     # the Kani harnesses build fresh values only
     items = [x for x in fams("sequences", "boundary", "builtins") if any(k in x[0] for k in (
-        "str-eq", "nan-same-object", "stored-types", "str-literal", "fn-eq", "str-alias", "str-set-multi", "float-text-17"))]
+        "str-eq", "nan-same-object", "stored-types", "str-literal", "fn-eq", "str-alias", "str-set-multi", "float-text-17",
+        "signed-zero", "close-float", "negative-literals"))]
     scov, _ = run_s(rep, items, tier)
     s = check_k("C15", tier, rep)
     merge_cov(rep, scov, s)
